@@ -489,6 +489,34 @@ theorem C09_own_entries (c : Cell) (a : Args) (env : Env)
   obtain ⟨k, ft, acc, bk⟩ := c
   exact asynq_own_entries k ft acc bk a env h hk hst hsc ht hc
 
+/-! ## predecessors: objects that died before the object under test was created (`id()` reuse)
+
+  The library identifies a function / an instance in its tables by `id()`: `DeduplicateDecorator.tasks` is ONE table
+  for all deduplicated functions, keyed by `(id(self.fn), key)` (tools.py:363-371); `acached_per_instance` keys its
+  per-instance dictionaries by `id(self)` (tools.py:216-221).  `id()` is unique among LIVE objects only.  The identity
+  tokens of the model are addresses in this section: token 1 = the address of the function under test. -/
+
+/-- every entry's owner (first component of its key) is alive: an entry PINS its owner (deduplicate: table -> task ->
+    on_computed -> callback -> `self` -> `self.fn`) or is dropped when the owner dies (acached_per_instance: the
+    callback of `weakref.ref(self, ...)`) -/
+def Table.pinned (live : List Nat) (t : Table) : Prop := ∀ e ∈ t, e.1.1 ∈ live
+
+/-- **predecessors cannot matter**: whatever earlier functions left in the in-flight table and the caches - ANY
+    entries, under ANY keys, this call's included, for ANY key function and hashes - `.asynq(...)` of a function that was
+    created afterwards is a future of its own body with its own receiver and arguments, provided the entries pin their
+    owners (`Table.pinned`) and allocation gave the new function an address no live object has (`hfresh`).
+    `pinned` is what the code has to maintain; it is needed: `C09_pinned_needed` (seeded changes C09-10, C09-11). -/
+theorem C09_predecessors_irrelevant (c : Cell) (a : Args) (env : Env) (live : List Nat)
+    (h : supported c.kind c.ft c.acc = true) (hk : c.kind.hasAsynq = true)
+    (hfresh : 1 ∉ live)
+    (ht : Table.pinned live env.tasks) (hc : Table.pinned live env.cache) :
+    app env .asynq c.callable (callerArgs c.ft c.acc 0 a) = .fut ⟨1, refArgs c.ft c.acc 0 a, c.kind.userWrapped⟩ := by
+  have nt : ∀ e ∈ env.tasks, e.1.1 ≠ 1 := fun e he h1 => hfresh (h1 ▸ ht e he)
+  have nc : ∀ e ∈ env.cache, e.1.1 ≠ 1 := fun e he h1 => hfresh (h1 ▸ hc e he)
+  have st := (C09_separates env.keyOf (refArgs c.ft c.acc 0 a) env.tasks).2 nt
+  have sc := (C09_separates env.keyOf (refArgs c.ft c.acc 0 a) env.cache).2 nc
+  exact C09_own_entries c a env h hk st.1 sc.1 st.2 sc.2
+
 /-! ## the hypotheses are needed (machine-checked witnesses) -/
 
 /-- `supported` is needed: `alru_cache` over a staticmethod fetched through an instance is outside the bindings the
@@ -532,6 +560,26 @@ theorem C09_consistent_needed :
     app ⟨id, [((1, ⟨[1, 30], []⟩), ⟨77, ⟨[99], []⟩, false⟩)], [], id, false⟩ .asynq
         (Cell.callable ⟨.dedup, .plain, .inst, .plain⟩) (callerArgs .plain .inst 0 ⟨[30], []⟩) =
       .fut ⟨77, ⟨[99], []⟩, false⟩ := by decide
+
+/-- `Table.pinned` of `C09_predecessors_irrelevant` is needed.  (1) deduplicate: the never-awaited task of a DEAD
+    function (body 7) still sits in the shared table under the address that was handed to the function under test -
+    `.asynq(...)` returns it (seeded change C09-10: the clean-up callback no longer refers to the decorator, so the
+    entry does not keep it alive), while the plain call runs the own body: the conventions disagree.
+    (2) acached_per_instance: the value cached for a DEAD instance (token 11) under the address (1) that now belongs to
+    the receiver is returned (seeded change C09-11: no weak reference, so nothing drops the entry). -/
+theorem C09_pinned_needed :
+    ¬ Table.pinned [] [((1, (⟨[30], []⟩ : Args)), (⟨7, ⟨[30], []⟩, false⟩ : Reach))] ∧
+    app ⟨id, [((1, ⟨[30], []⟩), ⟨7, ⟨[30], []⟩, false⟩)], [], id, false⟩ .asynq
+        (Cell.callable ⟨.dedup, .plain, .direct, .gen⟩) (callerArgs .plain .direct 0 ⟨[30], []⟩) =
+      .fut ⟨7, ⟨[30], []⟩, false⟩ ∧
+    (runCv ⟨id, [((1, ⟨[30], []⟩), ⟨7, ⟨[30], []⟩, false⟩)], [], id, false⟩ .sync
+        (Cell.callable ⟨.dedup, .plain, .direct, .gen⟩) (callerArgs .plain .direct 0 ⟨[30], []⟩)
+        .pyNone ⟨[], []⟩ .pyNone ⟨[], []⟩).res = .val ⟨1, ⟨[30], []⟩, false⟩ ∧
+    app ⟨id, [], [((1, ⟨[1, 30], []⟩), ⟨1, ⟨[11, 30], []⟩, false⟩)], id, false⟩ .asynq
+        (Cell.callable ⟨.acpi, .plain, .inst, .gen⟩) (callerArgs .plain .inst 0 ⟨[30], []⟩) =
+      .fut ⟨1, ⟨[11, 30], []⟩, false⟩ := by
+  refine ⟨fun h => ?_, by decide, by decide, by decide⟩
+  cases h _ (List.mem_singleton.mpr rfl)
 
 /-- `hself` of `C09_any_receiver` is needed: an `acached_per_instance` method fetched through the class and called
     without any argument has no `self` - the wrapper's own parameter list rejects the call -/
